@@ -221,7 +221,27 @@ func (c DDLCase) args(bucket string) ([]string, bool) {
 		}
 		cols += ", " + kw("primary") + " " + kw("key") + "(nosuchcolumn)"
 	case "unique":
-		cols += ", uq " + kw("unique")
+		// UNIQUE on an added column, or on any existing column (first, key or other position)
+		if c.MutArg%3 == 0 {
+			cols += ", uq " + kw("unique")
+		} else {
+			var items []string
+			sep := c.Sep
+			if sep == "" {
+				sep = " "
+			}
+			for i, col := range c.Cols {
+				it := col.render(kw, sep)
+				if i == pick {
+					it += sep + kw("unique")
+				}
+				items = append(items, it)
+			}
+			cols = strings.Join(items, ","+sep)
+			if c.TrailPK >= 0 && c.TrailPK < len(c.Cols) {
+				cols += "," + sep + kw("primary") + sep + kw("key") + "(" + quoteIdent(c.Cols[c.TrailPK].Name) + ")"
+			}
+		}
 	case "default":
 		cols += ", df " + kw("default") + " 5"
 	case "duplicate-column":
